@@ -67,6 +67,10 @@ RULE = ("(a) 2400 (quick) / 14000 (thorough) small synthetic ARMs written straig
         "graph id to a later call, no generated graph id handed out twice, none the id of a model; a call refused on an emptied model followed by a "
         "partition of the refilled model through the same ARM object; 6% of the synthetic cases under falsy / sentinel-like / case- and blank-related "
         "delegation names ('', '0', 'None', 'null', ' d1', 'D1' ...), also as re-key targets. "
+        "(e) entry values as other tooling than the library's own Labels objects writes them (a property set directly, a model file): a third of the "
+        "label details of the synthetic models, a corner graph, a corpus case and every 3rd API-built model (entries rewritten in place as JSON) carry "
+        "list-valued labels in the operator's order (not sorted), with repeats, of one element, empty, or '' values - single entries, pool definitions "
+        "and references; entries are compared as JSON values in the partition and after every re-keying step; gen/armcfg.py probes the same on 84 entries. "
         "non-trivial = at least 2 delegation ids; distinct by canonical ARM snapshot")
 
 CP, LINK, NS, NN, COMP = "ConnectionPoint", "Link", "NetworkService", "NetworkNode", "Component"
@@ -197,6 +201,19 @@ CORNER_RAW = [
                ["l", "swp", "connects", []], ["swns", "swp", "connects", []], ["sw", "swns", "has", []]]},
     # no delegations at all
     {"nodes": [["a", NN, [], None, None]], "edges": []},
+    # entries written by other tooling than the library's own Labels / Capacities objects (a model file, a property set directly):
+    # list-valued labels in the operator's order (not sorted), with repeats, of one element, empty, '' values - single entries, a pool
+    # definition and its reference; a partition carries the entry the model has, not a normal form of it
+    {"nodes": [["w", NN, [], None, [["d1", "{\"capacities\":{\"core\":32,\"ram\":128},\"pool_id\":\"_\"}"]]], ["nic", COMP, [], None, None],
+               ["sf", NS, [], None, None],
+               ["p1", CP, [], [["d1", "{\"labels\":{\"vlan_range\":[\"3000-3100\",\"1000-1100\"]},\"pool_id\":\"_\"}"],
+                               ["d2", "{\"labels\":{\"mac\":\"00:00:00:00:02:01\",\"vlan_range\":[\"200-300\",\"100-150\",\"200-300\"]},\"pool_id\":\"_\"}"]], None],
+               ["p2", CP, [], [["d2", "{\"labels\":{\"ipv4_range\":[\"192.168.2.1-192.168.2.10\",\"192.168.1.1-192.168.1.10\"],"
+                                      "\"ipv6_range\":[\"2001:db8::10-2001:db8::20\",\"2001:db8::1-2001:db8::5\"],\"local_name\":[\"b\",\"a\",\"b\"]},\"pool_id\":\"pl\"}"]], None],
+               ["p3", CP, [], [["d2", "{\"pool\":\"pl\"}"], ["d1", "{\"labels\":{\"local_name\":\"\",\"vlan_range\":[]},\"pool_id\":\"_\"}"]], None],
+               ["p4", CP, [], [["d1", "{\"labels\":{\"vlan\":[\"7\"],\"vlan_range\":[\"7-9\"]},\"pool_id\":\"_\"}"]], None]],
+     "edges": [["w", "nic", "has", []], ["nic", "sf", "has", []], ["sf", "p1", "connects", []], ["sf", "p2", "connects", []],
+               ["sf", "p3", "connects", []], ["sf", "p4", "connects", []]]},
 ]
 
 
@@ -305,7 +322,8 @@ def gen_cases(ctx, rng, n, nsynth=0):
             mode = "single" if rng.random() < 0.12 else "mixed"
             cases.append({"kind": "gen", "seed": "%s/%d/%d" % (ctx.seed, i, rng.randrange(10 ** 6)), "size": size,
                           "ids": ["alpha", "beta", "gamma"][:k] if mode == "mixed" else ["primary"], "mode": mode,
-                          **({} if ctx.thorough else {"rounds": 2}), **({"second": "build"} if i % 2 == 0 else {})})
+                          **({} if ctx.thorough else {"rounds": 2}), **({"second": "build"} if i % 2 == 0 else {}),
+                          **({"foreign": True} if i % 3 == 1 else {})})
     # the cheap stream: small synthetic ARMs written straight into the store (lib_armsynth), one partition each; every 8th with the
     # run on the store (bystander graph) and re-key chains, every 16th as a 3-partition history on the same ARM object
     for i in range(nsynth):
@@ -353,6 +371,33 @@ def gen_cases(ctx, rng, n, nsynth=0):
     return cases
 
 
+# label values as other tooling than the library's own Labels objects writes them onto a model (directly as a property, or into a
+# model file): lists in the operator's order, with repeats, of one element, empty; '' values
+FOREIGN_LABELS = {"vlan_range": ["3000-3100", "1000-1100", "3000-3100"], "ipv4_range": ["192.168.2.1-192.168.2.10", "192.168.1.1-192.168.1.10"],
+                  "ipv6_range": ["2001:db8::10-2001:db8::20", "2001:db8::1-2001:db8::5"], "mac": ["0C:42:A1:EA:C7:61", "0C:42:A1:EA:C7:60"],
+                  "local_name": ["p2", "p1", "p2"], "vlan": ["200", "100"], "bdf": ["0000:41:00.1", "0000:41:00.0"], "device_name": "",
+                  "instance": [], "ipv4_subnet": ["192.168.2.0/24"]}
+
+
+def foreign_entries(g, rng, p=0.5):
+    """rewrite, in place and as JSON text, every second label entry that carries details: one of its fields gets a FOREIGN_LABELS value"""
+    n = 0
+    for nid in sorted(g.list_all_node_ids()):
+        v = g.get_node_properties(node_id=nid)[1].get(L.LDEL)
+        if not v or v == "None":
+            continue
+        d, ch = json.loads(v), False
+        for k in sorted(d):
+            if isinstance(d[k].get("labels"), dict) and rng.random() < p:
+                f = rng.choice(sorted(FOREIGN_LABELS))
+                d[k]["labels"][f] = FOREIGN_LABELS[f]
+                ch = True
+        if ch:
+            g.update_node_property(node_id=nid, prop_name=L.LDEL, prop_val=json.dumps(d))
+            n += 1
+    return n
+
+
 def build_case(c):
     """-> (arm graph (NetworkXPropertyGraph), importer, Substrate or None)"""
     import random
@@ -363,6 +408,8 @@ def build_case(c):
         sub = L.build(rng, c["size"])
         L.annotate(sub, rng, c["ids"], c["mode"])
         g = sub.graph
+        if c.get("foreign"):
+            foreign_entries(g, random.Random("C13foreign/" + c["seed"]))
         return g, g.importer, sub
     imp = NetworkXGraphImporter()
     if c["kind"] == "ad":
@@ -759,6 +806,10 @@ def correspondence(ctx, res):
         res.count("rounds:%d" % len(r["rounds"]))
         for f, v in c.get("features", {}).items():
             res.count("synth:" + f)
+        if c["kind"] != "synth" and r["rounds"] and "before" in r["rounds"][0]:
+            for f in sorted({f for n in r["rounds"][0]["before"]["nodes"].values() for dv in (n["ldel"], n["cdel"]) if dv
+                             for e in dv.values() for f in SY.entry_features(e)}):
+                res.count("%s:%s" % (c["kind"], f))
         if "second" in r:
             res.count("second-model:%s:guids-%s" % ("built" if c["second"] == "build" else "derived" if c["second"] == "derive" else "given",
                                                     c["guids"]))
